@@ -52,8 +52,6 @@ Definition p_bdef (x : sx) : option bdef :=
                     else if is_tag "get" t then option_map BDGet (p_str a) else None
   | _ => None
   end.
-Fixpoint pget (k : str) (p : params) : option str :=
-  match p with [] => None | (a, b) :: t => if str_eqb k a then Some b else pget k t end.
 Definition behav_of (bs : list bdef) (b : nat) (p : params) : outcome :=
   match nth_error bs b with
   | Some (BDConst s) => OOk (BText s)
@@ -157,9 +155,9 @@ Definition dispatch (x : sx) : sx :=
         end
       else if is_tag "ws" t then
         match sx_list (p_jv 200) rest with
-        | Some msgs => let '(inv, alive) := ws_run ok_unless_boom msgs in
+        | Some msgs => let '(inv, alive) := ws_run impl_wflags ok_unless_boom msgs in
                        SL [sx_w "ok"; SL (sx_w "inv" :: map sx_jv inv); SL [sx_w "alive"; sx_bool alive];
-                           SL (sx_w "classes" :: map (fun m => sx_delivery (deliver m)) msgs)]
+                           SL (sx_w "classes" :: map (fun m => sx_delivery (deliver impl_wflags m)) msgs)]
         | None => sx_err "parse"
         end
       else if is_tag "enc" t then
